@@ -665,3 +665,27 @@ func (s *State) Rebuild(h int, v any) V {
 	delete(s.in, h)
 	return s.emit(V{"op": "build", "h": h, "v": v})
 }
+
+// Weight is the number of leaves of the projection of the packet under h (a small packet can decode
+// to a very large value; formatting cost is quadratic in it, see scripts.go stringOf).
+func (s *State) Weight(h int) int {
+	var count func(x any) int
+	count = func(x any) int {
+		switch t := x.(type) {
+		case V:
+			n := 0
+			for _, v := range t {
+				n += count(v)
+			}
+			return n
+		case L:
+			n := 0
+			for _, v := range t {
+				n += count(v)
+			}
+			return n
+		}
+		return 1
+	}
+	return count(absAny(s.Pk[h]))
+}
